@@ -1519,6 +1519,14 @@ def grouprun(ctx):
                         if not ok:
                             return False, why
                         continue
+                    if nm == "replace" and len(payload["args"]) == 2 and \
+                            any("mem::replace" in x for x in callee_paths(payload)):
+                        # `mem::replace(&mut var, new)`: the former value of `var`; `var` now holds `new`
+                        for a in payload["args"]:
+                            ok, why = single_char_set(a, seen)
+                            if not ok:
+                                return False, why
+                        continue
                     return False, "the result of %s()" % nm
                 rv = payload
                 if rv["k"] in ("use", "cast"):
